@@ -274,12 +274,20 @@ def contains_reuse_info(text: str) -> bool:
 def detect_line_endings(text: str) -> str:
     """Return one of '\n', '\r' or '\r\n' depending on the line endings used in
     *text*. Return os.linesep if there are no line endings.
+
+    The most frequent line ending wins, so that a stray '\r' inside a line does
+    not turn a file that uses '\n' into one that uses '\r'.
     """
-    line_endings = ["\r\n", "\r", "\n"]
-    for line_ending in line_endings:
-        if line_ending in text:
-            return line_ending
-    return os.linesep
+    crlf = text.count("\r\n")
+    counts = {
+        "\r\n": crlf,
+        "\r": text.count("\r") - crlf,
+        "\n": text.count("\n") - crlf,
+    }
+    line_ending = max(counts, key=lambda item: counts[item])
+    if counts[line_ending] == 0:
+        return os.linesep
+    return line_ending
 
 
 # REUSE-IgnoreEnd
